@@ -390,6 +390,94 @@ func c16reconnect(reply string, viaConnect bool) string {
 	return fmt.Sprintf("%s %d %s %d %s", cls, before, e, after, got)
 }
 
+// c16lives: several lives of ONE Component value. In each life the server answers the handshake with the life's reply;
+// an accepted session is closed gracefully by the server right away. Observation per life: the class of the reply, the
+// error class of Connect / Resume, the component's state afterwards, and how many times the event handler was told
+// "session established" during that life.
+func c16lives(how string, replies []string) string {
+	ln, err := net.Listen("tcp", "127.0.0.1:0")
+	if err != nil {
+		return "listen-failed"
+	}
+	defer ln.Close()
+	header := c16header([]c16attr{{"", "id", "sid"}}, "named")
+	type lifeSync struct{ done chan struct{} }
+	syncs := make([]lifeSync, len(replies))
+	for i := range syncs {
+		syncs[i].done = make(chan struct{})
+	}
+	go func() {
+		for i, reply := range replies {
+			conn, err := ln.Accept()
+			if err != nil {
+				for j := i; j < len(syncs); j++ {
+					close(syncs[j].done)
+				}
+				return
+			}
+			got := "~"
+			sent := make(chan struct{})
+			fin := make(chan struct{})
+			close(fin)
+			c16serve(conn, header, reply, 0, false, c16class(reply) == "handshake", &got, sent, fin)
+			close(syncs[i].done)
+		}
+	}()
+	opts := xmpp.ComponentOptions{
+		TransportConfiguration: xmpp.TransportConfiguration{Address: ln.Addr().String(), Domain: "comp.localhost", ConnectTimeout: 1},
+		Domain:                 "comp.localhost", Secret: "s", Name: "verif", Category: "gateway", Type: "service",
+	}
+	c, err := xmpp.NewComponent(opts, xmpp.NewRouter(), func(error) {})
+	if err != nil {
+		return "newcomponent-failed"
+	}
+	var mu sync.Mutex
+	est := 0
+	c.SetHandler(func(e xmpp.Event) error {
+		if xmpp.VerifEventState(e) == xmpp.StateSessionEstablished {
+			mu.Lock()
+			est++
+			mu.Unlock()
+		}
+		return nil
+	})
+	var parts []string
+	for i, reply := range replies {
+		mu.Lock()
+		est = 0
+		mu.Unlock()
+		var rerr error
+		if how == "connect" || (how == "mixed" && i%2 == 0) {
+			rerr = c.Connect()
+		} else {
+			rerr = c.Resume()
+		}
+		select {
+		case <-syncs[i].done:
+		case <-time.After(5 * time.Second):
+		}
+		time.Sleep(20 * time.Millisecond) // the receive loop has seen the closing tag
+		e := "nil"
+		if rerr != nil {
+			e = "err"
+			if xmpp.VerifIsPermanent(rerr) {
+				e = "perm"
+			}
+		}
+		mu.Lock()
+		n := est
+		mu.Unlock()
+		parts = append(parts, fmt.Sprintf("%s %s %d %d", c16class(reply), e, int(xmpp.VerifComponentState(c)), n))
+		if t := xmpp.VerifComponentTransport(c); t != nil {
+			if xt, ok := t.(*xmpp.XMPPTransport); ok {
+				xt.Config.ConnectTimeout = 0
+			}
+			go t.Close()
+		}
+	}
+	return strings.Join(parts, ";")
+}
+
 func (c16) Exec(c Case) []string {
 	obs := make([]string, len(c.Ops))
 	var wg sync.WaitGroup
@@ -411,6 +499,21 @@ func (c16) Exec(c Case) []string {
 					}
 				}()
 				obs[i] = c16reconnect(unhx(op[2]), len(op) > 3 && op[3] == "connect")
+			}(i, op)
+		case "lives":
+			wg.Add(1)
+			go func(i int, op []string) {
+				defer wg.Done()
+				defer func() {
+					if r := recover(); r != nil {
+						obs[i] = fmt.Sprintf("panic:%v", r)
+					}
+				}()
+				var rs []string
+				for _, f := range op[2:] {
+					rs = append(rs, unhx(f[strings.Index(f, "|")+1:]))
+				}
+				obs[i] = c16lives(op[1], rs)
 			}(i, op)
 		case "connect":
 			wg.Add(1)
@@ -578,6 +681,40 @@ func (c16) Generate(rng *rand.Rand, tier string, st *Stats) []Case {
 			flush()
 		}
 	}
+	flush()
+
+	// several lives of one Component value: every ordered pair and a selection of triples of reply classes (the state
+	// and whatever else a life leaves behind must not influence how the next handshake reply is reported)
+	pick := map[string]c16reply{}
+	for _, r := range replies {
+		if _, ok := pick[r.class]; !ok {
+			pick[r.class] = r
+		}
+	}
+	classes := []string{"handshake", "streamError", "other", "decodeError"}
+	lifeTok := func(cl string) string { r := pick[cl]; return r.class + "|" + hx(r.bytes) }
+	hows := []string{"connect", "resume", "mixed"}
+	li := 0
+	for _, a := range classes {
+		for _, b := range classes {
+			pending = append(pending, []string{"lives", hows[li%3], lifeTok(a), lifeTok(b)})
+			li++
+			st.Inc("lives_pairs")
+			for _, c3 := range classes {
+				if tier == "thorough" || (li+len(c3))%3 == 0 {
+					pending = append(pending, []string{"lives", hows[li%3], lifeTok(a), lifeTok(b), lifeTok(c3)})
+					li++
+					st.Inc("lives_triples")
+				}
+			}
+			if len(pending) >= 12 {
+				flush()
+			}
+		}
+	}
+	// the same refusal twice with an accepted session in between, and the other way round
+	pending = append(pending, []string{"lives", "resume", lifeTok("streamError"), lifeTok("handshake"), lifeTok("streamError"), lifeTok("handshake")})
+	pending = append(pending, []string{"lives", "connect", lifeTok("other"), lifeTok("other"), lifeTok("handshake"), lifeTok("handshake")})
 	flush()
 
 	// the digest function and SHA-1 itself
